@@ -754,8 +754,13 @@ func enumerateC10(c *Ctx, sc0 *Scenario) *enumResult {
 			}
 		}
 		if n, ok := stdinLines[kind]; ok {
-			ks := map[int]bool{0: true, 1: true, n / 2: true, n - 1: true, n: true}
-			for k := range ks {
+			kset := map[int]bool{0: true, 1: true, n / 2: true, n - 1: true, n: true}
+			var ks []int
+			for k := range kset {
+				ks = append(ks, k)
+			}
+			sort.Ints(ks) // never iterate a map where the order decides what runs
+			for _, k := range ks {
 				if k < 0 {
 					continue
 				}
